@@ -1,4 +1,4 @@
-# also: C03 C01
+# also: C03 C01 C02
 """C06 / C03 - InspectWrapper: transparent fault-isolating pipe (C06) and the
 detection decision table (C03), proved with the inspectors ABSTRACT: each
 inspector is a havoc object whose eat_chunk may raise any Exception or not,
